@@ -239,7 +239,11 @@ class ImageWriter:
             bmp = BMPWriter(fp, bits, width, height)
             data = image.stream.get_data()
             i = 0
-            for y in range(height):
+            # Rows for which the stream has no data stay zero; they are not
+            # written one by one, so the work is bounded by the data.  The
+            # first row is the last one of the file and is always written.
+            nrows = min(height, (len(data) + bytes_per_line - 1) // bytes_per_line)
+            for y in range(max(1, nrows)):
                 line = data[i : i + bytes_per_line]
                 if bits == 24:
                     # BMP stores the components of a pixel as blue, green, red
